@@ -41,7 +41,14 @@ import (
 // fixed 10 s) is re-based from the abstract clock before every request.
 const Unit = time.Hour
 
-func ticks(k int) time.Duration { return time.Duration(k)*Unit + Unit/2 }
+// G is the number of time units per tick (the spec's G); the abstract clock runs in units.
+const G = 10
+
+// Thr is the spec's Thr: a duration of k ticks, in units; on the wall clock it is half a unit more,
+// so that events, which happen at whole units, never meet a threshold exactly.
+func Thr(k int) int { return G*k + G/2 }
+
+func ticks(k int) time.Duration { return time.Duration(Thr(k))*(Unit/G) + Unit/(2*G) }
 
 // Config is the abstract configuration of one instance (mirrors the spec's
 // cfg record).
@@ -1029,8 +1036,11 @@ func (in *Instance) Serve(jar *Jar, browser, method, path string, form map[strin
 }
 
 // Tick lets d abstract ticks pass by shifting every stored instant back.
-func (in *Instance) Tick(d int) {
-	dur := time.Duration(d) * Unit
+// Tick lets d whole ticks pass, Advance n units.
+func (in *Instance) Tick(d int) { in.Advance(G * d) }
+
+func (in *Instance) Advance(units int) {
+	dur := time.Duration(units) * (Unit / G)
 	in.Store.ShiftTime(dur)
 	for _, b := range in.Sess.browsers() {
 		m := in.Sess.Get(b)
